@@ -4,12 +4,27 @@ import os, sys
 sys.path.insert(0, os.path.join(os.path.dirname(os.path.abspath(__file__)), '..'))
 import common
 
-GENERATED = ('unicode', 'tagregistry', 'tagsites', 'tagstate')
+GENERATED = ('unicode', 'tagregistry', 'tagsites', 'tagstate', 'tagsfmt')
 
 def main():
     chk = common.Check('C02')
     import tags_common as P
-    proved = chk.prove('I18n.Props.C02', generated=GENERATED)
+    proved = chk.prove('I18n.Props.C02', generated=GENERATED, extra_targets=())
+    # the tie: _escape, safe_format, Tag.get_priority, Tag.format regenerated from the current lib/tags.py and proved equal to the model (Props/C02Tie.lean)
+    tie_ok = common.prove_tie(chk, 'I18n.Props.C02Tie', ('tagsfmt',),
+                              'the functions regenerated from the current lib/tags.py (_escape, safe_format, Tag.get_priority, Tag.format) are no longer proved '
+                              'equal to Tags.escape / safeFormat / priority / format (generated_*_eq_model and their corollaries)')
+    # every stream of these four functions runs a second time through the regenerated definitions (driver ops gescape / gpriority / gformat / gsformat)
+    TWIN = {'tags escape ': 'tags gescape ', 'tags priority ': 'tags gpriority ', 'tags format ': 'tags gformat ', 'tags sformat ': 'tags gsformat '}
+    plain_stream = chk.stream
+    def stream_with_twin(name, lines, outs, **kw):
+        r = plain_stream(name, lines, outs, **kw)
+        if tie_ok:
+            pairs = [(TWIN[k] + l[len(k):], o) for l, o in zip(lines, outs) for k in TWIN if l.startswith(k)]
+            if pairs:
+                plain_stream(name + '-generated', [p[0] for p in pairs], [p[1] for p in pairs])
+        return r
+    chk.stream = stream_with_twin
     R = P.Real()
     sites = P.load_sites()
     if sites is None:
@@ -113,6 +128,9 @@ def main():
              'against `i18nspector A; i18nspector B`; non-trivial = distinct '
              'tag emitted / distinct code-point class exercised',
         trusted=['Lean 4.33 kernel', 'axioms: propext, Classical.choice, Quot.sound only',
+                 'the tie of Tags.escape / safeFormat / priority / format to lib/tags.py: tools/translate/tagsfmt2lean.py (over tools/translate/pytr; rules in its docstring and DESIGN-notes/tags.md) '
+                 'and lean/I18n/PyKit.lean; the regenerated _escape, safe_format, Tag.get_priority, Tag.format are PROVED equal to the model (Props/C02Tie.lean) with repr / str.format / _is_safe as shared '
+                 'primitives, and run against CPython in the *-generated streams',
                  'translators tagregistry2lean / unicode2lean (dumps of live objects) and tagsites2lean (ast walk + the provenance classifier whose '
                  'rules are listed in its docstring: literal, int, toolTable, regexGuarded, libraryMessage, unicodeName, formatOfEscaped)',
                  'tagstate2lean (ast inventory of state on the output path; sees names, decorators, defaults, stores and mutating method calls in '
@@ -124,7 +142,10 @@ def main():
                  'under real terminfo entries',
                  'the path is printed unescaped by the tool; the theorems assume a clean / newline-free path (paths are not file content)',
                  'Spec.Tags.hostile (Cc, Cf, Zl, Zp, Cs) and Spec.Tags.Token are my reading of the property statement'],
-        explanation='Proved for all inputs (any UnicodeDB satisfying Sound, discharged for the interpreter\'s tables by unicode_sound): escape_clean, '
+        explanation='TIE: Generated/TagsFmt.lean is regenerated from the current lib/tags.py on every run; Props/C02Tie.lean proves generated_escape_eq_model, generated_safe_format_eq_model, '
+                    'generated_get_priority_eq_model, generated_format_eq_model for all inputs and restates escape_clean / escape_token / format_grammar / colour_strip / line_clean / safe_format_clean / '
+                    'priority_monotone about the regenerated functions; a source change breaks a proof or the translation (coverage.tie) and starts the falsifiers. '
+                    'Proved for all inputs (any UnicodeDB satisfying Sound, discharged for the interpreter\'s tables by unicode_sound): escape_clean, '
                     'escape_clean_classes, escape_token, escape_int, format_grammar, colour_strip, line_clean, line_count, unknown_tag_refused, '
                     'printed_tag_registered, safe_format_clean, message_repr_clean, format_calls_independent / format_calls_determine_run / '
                     'history_independent / extra_token_independent (no line depends on earlier calls, no token on neighbouring extras). '
